@@ -12,7 +12,7 @@ composition needs the parse / flatten model of C08 and the record codec of C01).
 import PsdVerif.Lemmas.TreeRefine3
 
 namespace PsdVerif.C09
-open PsdVerif PsdVerif.Tree
+open PsdVerif PsdVerif.TreeSt
 
 /-- **Refinement, one operation.** From a well-formed tree, an operation that does not raise
 changes the lists exactly like the plain-list operation, and returns the value the list operation
